@@ -10,12 +10,12 @@ PENDING = {}
 CLAIMS = {
  'C01': ('structural core at L1: the symmetry predicate that routes the solvers answers per its definition; slice- and Matrix-level pivoted LU keep the pivots a permutation, choose a column-maximal pivot and bound every multiplier by 1 (the facts the stability of the solve rests on)',
          'residual bounds (backward error analysis of floating-point elimination) are not expressible at L0/L1 and are NOT claimed; Cholesky route, triangular solves and the multi-RHS layout are not yet under contract; is_square (f32 sqrt) is an assumed contract'),
- 'C02': ('L1 (machine arithmetic treated as mathematical): pdf/pmf/mean/var of 13 univariate laws equal the textbook formulas over the reals, with support clauses (0 outside, no panic); Gamma/Beta functions abstract',
-         'total mass 1 and moment integrals are not expressible (n/a); the multivariate normal is not under contract; no rounding/overflow/NaN at L1'),
- 'C04': ('L0 (float operations are total deterministic functions): 53 loop-unrolled kernels, 75 Vector and 63 Matrix operator impls / maps proved for every length and operand form, mismatches rejected two-sidedly; dot, norm and sum equal their definitions over the reals (L1)',
-         'worst-case rounding bounds, logsumexp/logmeanexp overflow behaviour and prod are not covered (n/a at L0/L1); the Neg impls and max-based reductions use iterator adapters outside Verus'),
- 'C05': ('L1: slice-level matmul equals sum_k op(A)[i,k]*op(B)[k,j] for all four transpose combinations and every shape, non-conformable shapes rejected two-sidedly; the 16 Matrix.Matrix Dot methods against that contract (shape check, output shape, every entry)',
-         'matmul_blocked and the 48 vector-promoting Dot methods are not yet under contract (replay battery only); machine-integer range preconditions'),
+ 'C02': ('L1 (machine arithmetic treated as mathematical): pdf/pmf/mean/var of 13 univariate laws equal the textbook formulas over the reals, with support clauses (0 outside, no panic); the multivariate normal pdf / ln_pdf equal exp(-q/2)/sqrt((2 pi)^k det) resp. its logarithm with q the quadratic form through the product contracts; Gamma/Beta functions abstract',
+         'total mass 1 and moment integrals are not expressible (n/a); MVN::new (Cholesky/inverse/determinant of the covariance) is a hypothesis (object invariant), not under contract; no rounding/overflow/NaN at L1'),
+ 'C04': ('L0 (float operations are total deterministic functions): 53 loop-unrolled kernels, 75 Vector and 63 Matrix operator impls / maps and both negations proved for every length and operand form, mismatches rejected two-sidedly; dot, norm and sum equal their definitions over the reals (L1)',
+         'worst-case rounding bounds, logsumexp/logmeanexp overflow behaviour and prod are not covered (n/a at L0/L1)'),
+ 'C05': ('L1: slice-level matmul and the cache-blocked matmul_blocked (any block size) equal sum_k op(A)[i,k]*op(B)[k,j] for all four transpose combinations and every shape, non-conformable shapes rejected two-sidedly; all 64 Dot methods (Matrix.Matrix, Matrix.Vector, Vector.Matrix, Vector.Vector; owned and borrowed) against those contracts (shape check, output shape, every entry)',
+         'machine-integer range preconditions (lengths and block size <= i32::MAX); the BLAS feature path is not compiled'),
  'C06': ('integer + L1: which families carry a fixed dispersion, the convergence test (relative change of the loss below the tolerance, never on the first step), and the ridge penalty terms of the IRLS step (alpha*beta on the gradient and alpha on the Hessian diagonal, intercept unpenalised) as stated; products, reductions and the LU solve through their own contracts',
          'the IRLS fixed point (score equations at convergence), compute_dbeta/ddbeta composition, the per-family link tables and deviance are not yet under contract (replay battery only); convergence itself is a liveness claim (n/a)'),
  'C07': ('L1: the sampled trapezoid rule equals the exact integral of the piecewise-linear interpolant for every sample count; the five-point Gauss-Legendre table satisfies the moment equations for degree <= 9 (exact rational check of the table, outside Verus)',
@@ -24,8 +24,8 @@ CLAIMS = {
          'assumed contracts: apply_along_row (closure argument) and the zip/for_each row statements of the two V-stack leaves (outlined, rule R27); machine-integer range precondition (result size <= i32::MAX, dimensions >= 1)'),
  'C14': ('L1: Vandermonde design matrix entries are the powers x_r^i for every length and degree, xtx is the product X^T X, fit stores inv(V^T V) (V^T y) composed from the matmul contract with the matrix inverse abstract, mismatched x/y rejected',
          'invert_matrix is assumed (inv_fn); predict (iterator adapters) and conditioning are not under contract'),
- 'C08': ('L1: Welford aggregate invariant through every step (division-free), mean / welford_mean / population and sample variance / standard deviations and the two-pass covariances equal their textbook definitions over the reals; polynomial side lemmas by z3+cvc5 (QF_NRA)',
-         'rounding-error and large-offset stability claims are n/a; min/max/argmin/argmax and hist_bin_centers (fold / iterator adapters), one-pass and online covariance are not under contract'),
+ 'C08': ('L1: Welford aggregate invariant through every step (division-free), mean / welford_mean / population and sample variance / standard deviations and the two-pass covariances equal their textbook definitions over the reals; min / max return an attained bound and argmin / argmax the first index attaining it for every finite data set (folds verified as their defining loops); polynomial side lemmas by z3+cvc5 (QF_NRA)',
+         'rounding-error and large-offset stability claims are n/a; hist_bin_centers (iterator adapters), one-pass and online covariance are not under contract (replay battery only)'),
  'C11': ('L1 structure of pivoted LU at slice and Matrix level: pivots stay a permutation, the pivot row maximises |.| in its column, every multiplier is bounded by 1',
          'P*A = L*U, the Cholesky equations, determinant and triangular solves are not yet under contract (replay battery only)'),
  'C13': ('L1: autocovariance and autocorrelation equal their biased-estimator definitions for every series and lag (acf = acovf(k)/acovf(0)), differencing element-wise',
@@ -34,14 +34,14 @@ CLAIMS = {
          'vcat, hrepeat, vrepeat, apply_along_row/col, get_row_as_vector, toeplitz, vandermonde, design, arange, linspace, rotations and the approximate-equality predicates are not yet under contract (replay battery only); machine-integer range preconditions (len <= i32::MAX)'),
  'C16': ('L1: for every target the returned value is the chord through the bracketing knots inside the range (hence the ordinate at a knot), the fill value / extrapolated first or last segment / a rejection outside it according to the mode; the checked variant rejects unsorted or mismatched input',
          'strictly increasing abscissae and at least two knots are hypotheses of the property; L1 comparisons (no NaN)'),
- 'C17': ('L1: logistic, logit and both Box-Cox transforms equal their defining formulas over the reals with domains rejected two-sidedly; range (0,1) and monotonicity of the logistic as lemmas',
-         'softmax, binom_coeff exactness and the large-magnitude clause are not yet under contract (replay battery only); binom_coeff_alt is n/a (Gamma accuracy)'),
+ 'C17': ('L1: logistic, logit and both Box-Cox transforms equal their defining formulas over the reals with domains rejected two-sidedly; range (0,1) and monotonicity of the logistic as lemmas; binom_coeff returns exactly C(n,k) (Pascal-rule definition, unbounded integers) for every 0 <= k <= n whose value fits in 64 bits, with no intermediate overflow; symmetry and the absorption identities as lemmas',
+         'softmax and the large-magnitude clause are not under contract (replay battery only); binom_coeff_alt is n/a (Gamma accuracy)'),
  'C18': ('every constructor / setter / bulk update leaves the object equal to fresh(final parameters) including cached sampler objects, and rejects exactly the constructor-invalid values (two-sided REJECT)',
          'RNG stream equality is reduced to field equality; the alea RNG is trusted; state of the object after a rejected call is checked by the replay battery only'),
- 'C19': ('L0 + integers: jackknife returns the n leave-one-out vectors in order; shuffle keeps the multiset; shuffle_two applies one common permutation (ghost witness); index draws are in range from length 1 upward',
-         'bootstrap (iterator adapters) and "every position equally likely" (distributional) are not decided by contracts'),
- 'C20': ('L1: scalar RBF and rational-quadratic kernels equal the textbook forms; symmetry, k(x,x)=var and 0<k<=var as lemmas over the contract; parameter validation rejects non-positive parameters',
-         'the matrix (Gram) forms and positive semi-definiteness are not under contract (PSD is n/a; entry/shape agreement by the replay battery only)'),
+ 'C19': ('L0 + integers: jackknife returns the n leave-one-out vectors in order; shuffle keeps the multiset; shuffle_two applies one common permutation (ghost witness); bootstrap returns n_bootstrap vectors of the data length whose every element is the datum at a position drawn by DiscreteUniform(0, len-1) (draw provenance predicate); index draws are in range from length 1 upward',
+         '"every position equally likely" is reduced to provenance from the trusted alea generator (the distribution of the generator itself is not decided by contracts)'),
+ 'C20': ('L1: scalar RBF and rational-quadratic kernels equal the textbook forms; symmetry, k(x,x)=var and 0<k<=var as lemmas over the contract; parameter validation rejects non-positive parameters; the 8 matrix forms return one row per first-argument point and one column per second-argument point with every entry equal to the scalar form',
+         'positive semi-definiteness of Gram matrices is n/a (spectral property); machine-integer range preconditions on the point counts'),
 }
 props = [json.loads(l) for l in open('/verif/properties.jsonl')]
 checks = []
